@@ -589,9 +589,13 @@ func (this *Writer) Close() error {
 				return err
 			}
 
-			// Write end block of size 0
-			this.obs.WriteBits(0, 5) // write length-3 (5 bits max)
-			this.obs.WriteBits(0, 3)
+			if err := this.writeEndMarker(); err != nil {
+				// The bitstream state is unknown after a failed write
+				atomic.StoreInt32(&this.blockID, _CANCEL_TASKS_ID)
+				atomic.StoreInt32(&this.closing, 0)
+				return err
+			}
+
 			atomic.StoreInt32(&this.finalized, 1)
 		}
 	}
@@ -615,6 +619,26 @@ func (this *Writer) Close() error {
 		this.buffers[i] = blockBuffer{Buf: make([]byte, 0)}
 	}
 
+	return nil
+}
+
+// Use a named return value to update the error in the defer function
+func (this *Writer) writeEndMarker() (err error) {
+	defer func() {
+		// The bitstream panics when the underlying stream cannot be written to
+		if r := recover(); r != nil {
+			switch v := r.(type) {
+			case error:
+				err = &IOError{msg: v.Error(), code: kanzi.ERR_WRITE_FILE}
+			default:
+				err = &IOError{msg: fmt.Sprint(v), code: kanzi.ERR_WRITE_FILE}
+			}
+		}
+	}()
+
+	// Write end block of size 0
+	this.obs.WriteBits(0, 5) // write length-3 (5 bits max)
+	this.obs.WriteBits(0, 3)
 	return nil
 }
 
